@@ -33,6 +33,16 @@ def _leaves(ck):
     return ["ideal", "banked", ps[0], "ideal", ps[1], "banked", ps[2], "ideal", ps[3], "banked", ps[4], ps[5], "ideal"]
 
 
+DATA_FIELDS = {"data", "mshr_data", "fetched_data", "evicting_data", "write_data", "write_to_bottom_data", "rsp_data", "read_data"}
+
+
+def _what_class(what):
+    """dead_slot_data: only byte payloads of a slot flagged removed differ."""
+    if "[removed]." in what and set(what.split("[removed].", 1)[1].split("+")) <= DATA_FIELDS:
+        return "dead_slot_data"
+    return "other"
+
+
 def _report_c06(ck, out, label):
     for m in out["mismatches"] or []:
         key = {"kind": m["kind"], "class": m.get("class", ""), "msg_in_buffer_at_cut": m.get("msg_in_buffer_at_cut", False),
@@ -43,6 +53,7 @@ def _report_c06(ck, out, label):
             key["entity_is_idgen"] = m.get("entity") == "entities/IDGenerator"
             if m.get("class") == "real":
                 key["what"] = m.get("what", "")
+                key["what_class"] = _what_class(key["what"])
         ck.report(key, "%s: stack %s cut at %d ps (%d request(s) in flight): %s %s %s: %s" % (
             label, m["desc"], m["cut"], m.get("requests_in_flight_at_cut", 0), m["kind"], m.get("entity") or "", m.get("what") or "", m["detail"]),
             {"driver": "memhier_ckpt", "case": m.get("case"), "cut": m["cut"]})
